@@ -15,7 +15,7 @@ from ..corpus import b64, unb64
 
 PROP = "C10"
 LEVEL = "exploration"
-COUNTS = {"quick": 500, "thorough": 12000}
+COUNTS = {"quick": 1500, "thorough": 30000}
 WALL = {"quick": 170, "thorough": 3300}
 RULE = (
     "scenario = 1-3 operations in one process over 1-5 pool documents: scan / scan-stdin / --list-files / fix / the API "
@@ -147,6 +147,9 @@ def generate(rng, tier, index):
             # a contained rule/parser fault inside a read-only operation: it must
             # still leave nothing behind
             op["want_fault"] = [rng.random(), rng.choice(["raise", "raise_after", "badtok"]), rng.choice(["RuntimeError", "IndexError", "AssertionError"])]
+        if logfile_first and k == 0 and op["rt"]["kind"] == "cli" and rng.random() < 0.4:
+            # the log file cannot be written out when the invocation ends (disk full)
+            op["want_log_fault"] = [rng.choice(["flush", "flush", "close", "write"]), rng.choice(["ENOSPC", "EIO"]), rng.random()]
         if logfile_first and k == 0 and op["rt"]["kind"] == "cli":
             op["rt"]["argv"] = ["--log-file", "run%d.log" % k, "--log-level", rng.choice(["DEBUG", "INFO", "WARNING"])] + op["rt"]["argv"]
             op["logfile"] = "run%d.log" % k
@@ -157,7 +160,7 @@ def generate(rng, tier, index):
 def _plan(sc, builtin_ids):
     """Materialise the wanted faults of read-only operations from a dry run."""
     wanted = [(index, op["want_fault"]) for index, op in enumerate(sc["ops"]) if op.get("want_fault")]
-    if not wanted:
+    if not wanted and not any(op.get("want_log_fault") for op in sc["ops"]):
         return []
     request = _request(sc, builtin_ids)
     request["record_sites"] = True
@@ -165,6 +168,14 @@ def _plan(sc, builtin_ids):
     plan = []
     if not done(dry):
         return plan
+    for index, op in enumerate(sc["ops"]):
+        if op.get("want_log_fault"):
+            what, code, fraction = op["want_log_fault"]
+            sites = [s for s in dry["result"]["sites"] if s[3] == index and s[0] == "fs/%s/work-new" % what]
+            if sites:
+                # the last occurrences are the ones at the end of the invocation
+                site = sites[-1] if fraction < 0.7 else sites[int(fraction * len(sites)) % len(sites)]
+                plan.append({"site": site[0], "file": site[1], "ord": site[2], "op": index, "act": "oserror:" + code})
     for index, (fraction, act, exc) in wanted:
         if act == "badtok":
             sites = [s for s in dry["result"]["sites"] if s[3] == index and s[0] == "parse"]
@@ -411,10 +422,11 @@ def reductions(sc):
             target["rt"]["argv"].remove(name)
             yield candidate
     for index, op in enumerate(sc["ops"]):
-        if op.get("want_fault"):
-            candidate = copy.deepcopy(sc)
-            del candidate["ops"][index]["want_fault"]
-            yield candidate
+        for field in ("want_fault", "want_log_fault"):
+            if op.get(field):
+                candidate = copy.deepcopy(sc)
+                del candidate["ops"][index][field]
+                yield candidate
     if sc["world"] != NEUTRAL_WORLD:
         candidate = copy.deepcopy(sc)
         candidate["world"] = dict(NEUTRAL_WORLD)
